@@ -4,8 +4,11 @@ package hmatch
 
 import (
 	"fmt"
+	"sort"
 	"strings"
 
+	"github.com/Comcast/sheens/match"
+	"github.com/Comcast/sheens/verifrt/jgen"
 	"github.com/Comcast/sheens/verifrt/ref/rmatch"
 	"github.com/Comcast/sheens/verifrt/vh"
 )
@@ -76,4 +79,190 @@ func sortedKeys(m map[string]interface{}) []string {
 		}
 	}
 	return ks
+}
+
+// ---- Go-typed numbers ------------------------------------------------------------------------------
+//
+// A host that builds messages, bindings or patterns in Go (rather than decoding JSON) hands the matcher
+// ints, int64s, int32s and float32s; the matcher's documented stance (the "fudge" step) is that these are
+// the numbers they denote.  So the result for any (P, M, B) must not depend on how its numbers are typed:
+// a differential oracle over the float64 rendering, which the other families decide against the reference.
+
+type goTypedCase struct {
+	P    interface{} `json:"p"`
+	M    interface{} `json:"m"`
+	B    M           `json:"b"`
+	Kind string      `json:"kind"` // int | int64 | int32 | float32
+	Side string      `json:"side"` // m | p | b | pmb
+}
+
+var goKinds = []string{"int", "int64", "int32", "float32"}
+
+func retype(x interface{}, kind string) interface{} {
+	switch v := x.(type) {
+	case float64:
+		switch kind {
+		case "int":
+			return int(v)
+		case "int64":
+			return int64(v)
+		case "int32":
+			return int32(v)
+		case "float32":
+			return float32(v)
+		}
+		return v
+	case map[string]interface{}:
+		m := make(map[string]interface{}, len(v))
+		for k, e := range v {
+			m[k] = retype(e, kind)
+		}
+		return m
+	case []interface{}:
+		a := make([]interface{}, len(v))
+		for i, e := range v {
+			a[i] = retype(e, kind)
+		}
+		return a
+	}
+	return x
+}
+
+func hasNumber(x interface{}) bool {
+	switch v := x.(type) {
+	case float64:
+		return true
+	case map[string]interface{}:
+		for _, e := range v {
+			if hasNumber(e) {
+				return true
+			}
+		}
+	case []interface{}:
+		for _, e := range v {
+			if hasNumber(e) {
+				return true
+			}
+		}
+	}
+	return false
+}
+
+// goTypedOne compares the typed rendering with the float64 rendering.  prop C01 reports results the
+// float64 rendering does not have (and errors it does not raise are C02's: a match that is lost);
+// prop C02 reports lost results and an error instead of a result.
+func goTypedOne(c *vh.Ctx, prop string, cs goTypedCase) {
+	c.Eval()
+	run := func(p, m interface{}, b M) (map[string]bool, error) {
+		bss, err := match.Match(p, m, match.Bindings(copyB(b)))
+		set := map[string]bool{}
+		for _, bs := range bss {
+			set[rmatch.Canon(M(bs))] = true
+		}
+		return set, err
+	}
+	base, berr := run(cs.P, cs.M, cs.B)
+	p, m, b := cs.P, cs.M, cs.B
+	if strings.Contains(cs.Side, "p") {
+		p = retype(p, cs.Kind)
+	}
+	if strings.Contains(cs.Side, "m") {
+		m = retype(m, cs.Kind)
+	}
+	if strings.Contains(cs.Side, "b") {
+		b = retype(b, cs.Kind).(M)
+	}
+	got, gerr := run(p, m, b)
+	if len(base) > 0 {
+		c.Nontrivial()
+	}
+	desc := fmt.Sprintf("Match(%s, %s, %s) with the numbers of [%s] typed %s", jgen.J(cs.P), jgen.J(cs.M), jgen.J(cs.B), cs.Side, cs.Kind)
+	if prop == "C02" {
+		if berr == nil && gerr != nil {
+			c.Violation("C02/go-typed-numbers/error-instead-of-result/"+cs.Side, fmt.Sprintf("%s fails (%v); with float64 numbers it returns %v", desc, gerr, keysOf(base)), cs)
+			return
+		}
+		for k := range base {
+			if !got[k] {
+				c.Violation("C02/go-typed-numbers/embedding-not-found/"+cs.Side, fmt.Sprintf("%s = %v misses %s, which is returned when the same numbers are float64", desc, keysOf(got), k), cs)
+				return
+			}
+		}
+		return
+	}
+	for k := range got {
+		if !base[k] {
+			c.Violation("C01/go-typed-numbers/result-not-contained/"+cs.Side, fmt.Sprintf("%s returns %s, which is not a result when the same numbers are float64 (%v, err %v)", desc, k, keysOf(base), berr), cs)
+			return
+		}
+	}
+}
+
+func keysOf(s map[string]bool) []string {
+	var out []string
+	for k := range s {
+		out = append(out, k)
+	}
+	sort.Strings(out)
+	return out
+}
+
+// goTypedFamily: every small (P, M) pair of the C02 alphabet that contains a number, plus inequality
+// variables with bounds and facts of every type, x kinds x sides.
+func goTypedFamily(c *vh.Ctx, prop string) {
+	ps, ms := c02PatSpec(), c02MsgSpec()
+	pats, msgs := ps.UpTo(3), ms.UpTo(c.Pick(3, 4))
+	var idx uint64
+	for _, p := range pats {
+		if dupScalars(p) {
+			continue
+		}
+		for _, m := range msgs {
+			if dupScalars(m) || (!hasNumber(p) && !hasNumber(m)) {
+				continue
+			}
+			idx++
+			if !c.Mine(idx) {
+				continue
+			}
+			if c.Expired() {
+				return
+			}
+			for _, kind := range goKinds {
+				for _, side := range []string{"m", "p", "pm"} {
+					if (side == "p" && !hasNumber(p)) || (side == "m" && !hasNumber(m)) {
+						continue
+					}
+					goTypedOne(c, prop, goTypedCase{P: p, M: m, B: M{}, Kind: kind, Side: side})
+					c.Count("gotyped_evaluations", 1)
+				}
+			}
+		}
+	}
+	// bound variables and inequality bounds
+	for _, v := range []string{"?x", "?<n", "?<=n", "?>n", "?>=n", "?!=n"} {
+		for _, bound := range []float64{1, 2} {
+			for _, fact := range []interface{}{1.0, 2.0, 3.0, "1", []interface{}{1.0, 2.0}, M{"k": 2.0}} {
+				for _, wrap := range []string{"bare", "map", "array"} {
+					idx++
+					if !c.Mine(idx) {
+						continue
+					}
+					var p, m interface{} = v, fact
+					switch wrap {
+					case "map":
+						p, m = M{"a": v, "b": 1.0}, M{"a": fact, "b": 1.0, "c": 2.0}
+					case "array":
+						p, m = []interface{}{v, 1.0}, []interface{}{fact, 1.0}
+					}
+					for _, kind := range goKinds {
+						for _, side := range []string{"m", "b", "mb", "pmb"} {
+							goTypedOne(c, prop, goTypedCase{P: p, M: m, B: M{v: bound}, Kind: kind, Side: side})
+							c.Count("gotyped_evaluations", 1)
+						}
+					}
+				}
+			}
+		}
+	}
 }
